@@ -64,7 +64,7 @@ def shard_fn(shard, nshards, seed, tier, exe, npairs):
         text, _v = g.document()
         if len(text) < 3000:
             add(D, text, rng.choice([0, 0, 0, 1, 7]), "generated")
-    results, crashes = core.run_script(exe, cases, tag="c15", timeout=1800)
+    results, crashes = core.run_script(exe, cases, tag="c15", timeout=1800, env=core.ambient_env(sh, shard))
     cmdmap = dict(cases)
     for cr in crashes:
         kind, frame = cr.summary()
